@@ -58,6 +58,8 @@ func VerifC15_v1_new() {
 		vAssert(vAnd(ok, !in.Drained, in.Channel == inputs[p]), "every input is registered under its own priority, not drained")
 	}
 	vAssert(vSumAssert("strategic", st...) == e.H, "C01: the strategic shares sum to HandlersQuantity (sum-preserving divider)")
-	vAssert(vAnd(len(d.actual) == 0, len(d.tactic) == 0), "counters start empty")
+	for _, p := range e.ps {
+		vAssert(d.actual[p] == 0, "C01: nothing is in flight when the discipline is created")
+	}
 	vAssert(vSpawnCount() == 1 && vSpawnedIs(0, "main"), "C19: exactly one goroutine (main) is started by New")
 }
